@@ -222,11 +222,48 @@ fn cmd_run(a: &Args) -> i32 {
     0
 }
 
+/// `replay --in FILE --out FILE`: FILE holds {"file": the recorded "file" event, "event": the recorded damage /
+/// session event}; the same damaged copy is read again on the current tree and recorded in the same format.
+fn cmd_replay(a: &Args) -> i32 {
+    let text = std::fs::read_to_string(a.req("in")).expect("replay input");
+    let j: J = serde_json::from_str(&text).expect("replay json");
+    let (f, e) = (&j["file"], &j["event"]);
+    let file: Vec<u8> = f["bytes"].as_array().expect("file bytes").iter().map(|x| x.as_u64().unwrap() as u8).collect();
+    let intact: Vec<Value> = match Reader::new(&file[..]) { Ok(r) => r.filter_map(|x| x.ok()).collect(), Err(_) => vec![] };
+    let intact_d: Vec<Dyn> = match Reader::new(&file[..]) { Ok(r) => r.into_deser_iter::<Dyn>().filter_map(|x| x.ok()).collect(), Err(_) => vec![] };
+    let mut out = open_out(a.req("out"));
+    let mut fe = f.clone();
+    fe["id"] = small(0);
+    fe["intact_n"] = small(intact.len());
+    writeln!(out, "{fe}").unwrap();
+    let kind = e["kind"].as_str().unwrap_or("cut");
+    let k = e["k"].as_u64().unwrap_or(0) as usize;
+    let mask = e["mask"].as_u64().unwrap_or(0) as u8;
+    let copy: Vec<u8> = match kind {
+        "cut" => file[..k.min(file.len())].to_vec(),
+        _ => { let mut c = file.clone(); if k >= 1 && k <= c.len() { c[k - 1] ^= mask; } c }
+    };
+    let mut ev = if e["ev"] == "session" {
+        let sw = e["switch_at"].as_i64().unwrap_or(-1);
+        let mut ev = session(&copy, &intact, &intact_d, if sw < 0 { None } else { Some(sw as usize) }, 2);
+        ev["switch_at"] = J::from(sw);
+        ev
+    } else {
+        read_copy(&copy, &intact)
+    };
+    ev["ev"] = e["ev"].clone(); ev["id"] = small(1); ev["fid"] = small(0);
+    ev["kind"] = J::from(kind); ev["k"] = small(k); ev["mask"] = J::from(mask);
+    writeln!(out, "{ev}").unwrap();
+    out.flush().unwrap();
+    0
+}
+
 fn main() {
     quiet_panics();
     let args = parse_args();
     let rc = match args.cmd.as_str() {
         "run" => cmd_run(&args),
+        "replay" => cmd_replay(&args),
         other => { eprintln!("unknown command {other:?}"); 2 }
     };
     std::process::exit(rc);
